@@ -1,7 +1,8 @@
 """C03 -- typed value codecs.  Correspondence of Model/Codec*.v with the classes of
 icalendar/prop.py (every leaf codec in both directions and the vDDDTypes dispatcher), the direct
 property oracle on the implementation (round trip + RFC 5545 grammar of the output + the value
-of every grammar-generated text + the type chosen by the combined decoder), known-finding
+of every grammar-generated text + the type chosen by the combined decoder: texts drawn from the five
+vDDDTypes grammars and their mutations, classified by the extracted guard ddd_guard), known-finding
 classification, replay.
 
 vFloat / vGeo have no Coq model: they are checked on the implementation only (float.hex()
@@ -162,7 +163,7 @@ def g_dur(t):
     if not mm or "\n" in t:
         return None
     g = mm.groups()
-    n = lambda *ix: sum(int(g[i]) for i in ix if g[i] is not None)  # noqa: E731
+    n = lambda *ix: sum(int(g[i].lstrip("0") or "0") for i in ix if g[i] is not None)  # noqa: E731  (int()'s 4300-digit limit)
     v = 604800 * n(1) + 86400 * n(2) + 3600 * n(3, 9) + 60 * n(4, 6, 10, 12) + n(5, 7, 8, 11, 13, 14)
     return -v if g[0] == "-" else v
 
@@ -178,6 +179,115 @@ def g_offset(t):
     if mm[1] == "-":
         return None if v == 0 else -v
     return v
+
+
+def g_period(t):
+    """RFC 5545 3.3.9 period = date-time "/" date-time  /  date-time "/" dur-value"""
+    p = t.split("/")
+    if len(p) != 2:
+        return None
+    a = g_datetime(p[0])
+    if a is None:
+        return None
+    b = g_datetime(p[1])
+    if b is not None:
+        return ["period", ["datetime", a], ["datetime", b]]
+    d = g_dur(p[1])
+    if d is not None:
+        return ["period", ["datetime", a], ["dur", d]]
+    return None
+
+
+def g_ddd_readings(t):
+    """every reading of t as DATE / DATE-TIME / TIME / DURATION / PERIOD, in c_ddd form"""
+    out = []
+    x = g_date(t)
+    if x is not None:
+        out.append(["date"] + x)
+    x = g_datetime(t)
+    if x is not None:
+        out.append(["datetime", x])
+    x = g_time(t)
+    if x is not None:
+        out.append(["time"] + x)
+    x = g_dur(t)
+    if x is not None:
+        out.append(["dur", x])
+    x = g_period(t)
+    if x is not None:
+        out.append(x)
+    return out
+
+
+def big_ddd(v):
+    """the wire form of a reading: seconds beyond 59 bits travel as decimal text"""
+    if v is None:
+        return None
+    if v[0] == "dur":
+        return ["dur", c_big(v[1])]
+    if v[0] == "period":
+        return ["period", big_ddd(v[1]), big_ddd(v[2])]
+    return v
+
+
+def g_ddd(t):
+    r = g_ddd_readings(t)
+    return r[0] if len(r) == 1 else None
+
+
+def ddd_class(v):
+    """None when the value is inside the guard of C03_ddd_grammar_value (harness reading of ddd_guard), else the
+    id of the open finding whose class it is in"""
+    k = v[0]
+    if k == "datetime":
+        return "C03-F1" if v[1][5] == 60 else None
+    if k == "time":
+        return "C03-F1" if v[3] == 60 else "C03-F2" if v[4] else None
+    if k == "dur":
+        return None if TD_MIN <= v[1] <= TD_MAX else "C03-F4"
+    if k == "period":
+        return ddd_class(v[1]) or ddd_class(v[2])
+    return None
+
+
+def aupper(t):
+    """str.upper restricted to ASCII letters (what the Coq recognisers use)"""
+    return "".join(chr(ord(c) - 32) if "a" <= c <= "z" else c for c in t)
+
+
+WD_RE = re.compile(r"(?:([+-]?)([0-9]{1,2}))?(SU|MO|TU|WE|TH|FR|SA)")
+
+
+def g_weekday(t):
+    """RFC 5545 3.3.10 weekdaynum = [[plus / minus] ordwk] weekday, ordwk 1..53, letters in any case"""
+    mm = WD_RE.fullmatch(aupper(t))
+    if not mm or "\n" in t:
+        return None
+    if mm[2] is None:
+        return [["none"], mm[3]]
+    n = int(mm[2])
+    if not 1 <= n <= 53:
+        return None
+    return [-n if mm[1] == "-" else n, mm[3]]
+
+
+B64_ALPHABET = "ABCDEFGHIJKLMNOPQRSTUVWXYZabcdefghijklmnopqrstuvwxyz0123456789+/"
+
+
+def g_binary(t):
+    """RFC 4648 section 4 by bit arithmetic (not through the base64 module): (octets, canonical?) or None"""
+    if not BIN_RE.fullmatch(t):
+        return None
+    data = t.rstrip("=")
+    pad = len(t) - len(data)
+    n = 0
+    for ch in data:
+        n = n * 64 + B64_ALPHABET.index(ch)
+    unused = {0: 0, 1: 2, 2: 4}[pad]
+    canonical = (n & ((1 << unused) - 1)) == 0
+    n >>= unused
+    nbytes = (len(data) * 6 - unused) // 8
+    return n.to_bytes(nbytes, "big"), canonical
 
 
 INT_RE = re.compile(r"[+-]?[0-9]+")
@@ -241,6 +351,7 @@ class Run:
     def __init__(self, ctx, res):
         self.ctx, self.res, self.B = ctx, res, Batch()
         self.deferred = []     # (fid, example, impl observation, batch index or None, what)
+        self.callbacks = []    # decisions that need the model's answers (extracted guards): fn(outs)
 
     def corr(self, target, fname, arg, impl):
         return self.B.add(target, fname, arg, impl)
@@ -258,8 +369,14 @@ class Run:
     def fail(self, what, inp, observed=None, expected=None):
         self.res.fail("C03 " + what, inp, observed, expected)
 
+    def later(self, fn):
+        """fn(outs) runs once the model has answered; outs[i] is the answer to the batch entry i (None without a model)"""
+        self.callbacks.append(fn)
+
     def finish(self):
         self.B.run(self.ctx, self.res)
+        for fn in self.callbacks:
+            fn(self.B.outs)
         for fid, what, example, impl, idx in self.deferred:
             agrees = True
             if idx is not None and self.B.outs[idx] is not None:
@@ -702,6 +819,156 @@ def sec_periods(R):
                     R.fail("period grammar: a grammar-valid PERIOD text does not decode to its value", t, back, want)
 
 
+# ------------------------------------------------------------------------------ grammar texts of the five vDDDTypes kinds
+def rand_time_text(rng):
+    sec = rng.choice((rng.randrange(60), rng.randrange(60), rng.randrange(60), rng.randrange(60), 59, 0, 60))
+    return "%02d%02d%02d" % (rng.randrange(24), rng.randrange(60), sec) + rng.choice(("", "", "Z"))
+
+
+def rand_date_text(rng):
+    d = date.fromordinal(rng.choice((rng.randrange(1, date.max.toordinal() + 1), rng.randrange(1, 800),
+                                     date.max.toordinal() - rng.randrange(800))))
+    return "%04d%02d%02d" % (d.year, d.month, d.day)
+
+
+def rand_datetime_text(rng):
+    return rand_date_text(rng) + "T" + rand_time_text(rng)
+
+
+def rand_dur_text2(rng):
+    k = rng.randrange(12)
+    if k == 0:      # around and beyond timedelta's range (C03-F4)
+        return rng.choice(("", "+", "-")) + "P%dD" % rng.choice((999999999, 1000000000, rng.randrange(10 ** 9, 10 ** 11)))
+    if k == 1:
+        return rng.choice(("", "-")) + "P999999999DT%dH%dM%dS" % (rng.randrange(30), rng.randrange(70), rng.randrange(70))
+    if k == 2:
+        return rng.choice(("", "-")) + "P%dW" % rng.randrange(142857142, 142857144)
+    return rand_dur_text(rng)[0]
+
+
+def rand_period_text(rng):
+    return rand_datetime_text(rng) + "/" + (rand_datetime_text(rng) if rng.randrange(2) else rand_dur_text2(rng))
+
+
+DDD_MUT_ALPHABET = "0123456789TZPWDHMS/+-tzpwdhms \n_"
+
+
+def mutate_text(rng, t):
+    k = rng.randrange(8)
+    if k == 0 and t:                       # one letter to lower case (C03-F5 when it was a designator)
+        ix = [i for i, c in enumerate(t) if c.isalpha()]
+        if ix:
+            i = rng.choice(ix)
+            return t[:i] + t[i].lower() + t[i + 1:]
+    if k == 1:
+        return t.lower()
+    if k == 2 and t:
+        i = rng.randrange(len(t))
+        return t[:i] + t[i + 1:]
+    if k == 3 and t:
+        i = rng.randrange(len(t))
+        return t[:i] + t[i] + t[i:]
+    if k == 4 and t:
+        i = rng.randrange(len(t))
+        return t[:i] + rng.choice(DDD_MUT_ALPHABET) + t[i + 1:]
+    if k == 5:
+        i = rng.randrange(len(t) + 1)
+        return t[:i] + rng.choice(DDD_MUT_ALPHABET) + t[i:]
+    if k == 6 and "/" in t:
+        a, b = t.split("/", 1)
+        return rng.choice((b + "/" + a, a + "/", "/" + b, a + "/" + b + "/" + b, a + b))
+    return t + rng.choice(("Z", "\n", " ", "T000000", "/", "0"))
+
+
+def sec_grammar_ddd(R):
+    """C03_ddd_grammar_value(_full), C03_period_grammar_value(_full), C03_ddd_grammars_disjoint on the
+    implementation: texts generated from the five grammars (with leap seconds, Z, over-range and long durations), their
+    mutations and case variants.  The Coq readings (ddd_value, period_value) are cross-checked with the harness's own; the
+    extracted guard (ddd_guard, period_guard) classifies: inside it the implementation must return the RFC value (else
+    FAIL), outside it the failure must be the one [ddd_expected] predicts and lie in the class of an open finding."""
+    from icalendar.prop import vPeriod, vDDDTypes
+    res, ctx = R.res, R.ctx
+    rng = common.rng_for(ctx.seed, "c03-grammar-ddd")
+    n = 12000 if ctx.big else 2200 * (1 + ctx.level)
+    base = ["19970714", "00010101", "99991231", "20000229", "120000", "120000Z", "235960", "235960Z", "000000",
+            "19970714T120000", "19970714T120000Z", "19970714T235960Z", "19970714T235960", "P1D", "+P1D", "-P1W", "PT0S",
+            "P999999999DT23H59M59S", "-P999999999D", "P1000000000D", "-P999999999DT1S", "P999999999DT24H",
+            "19970101T180000Z/19970102T070000Z", "19970101T180000Z/PT5H30M", "19970101T180000/P1W", "19970101T180000Z/-PT1H",
+            "19970102T180000Z/19970101T070000Z", "19970101T180000/19970102T070000Z", "19970101T235960Z/PT1H",
+            "19970101T180000Z/19970102T235960Z", "19970101T180000Z/P1000000000D", "19970101T180000Z/-P999999999DT1S",
+            "19970101T180000Z/pt5h", "19970101t180000z/PT5H", "p1d", "19970714t120000z", "120000z", "19970101/19970102",
+            "P1D/P2D", "120000/130000", "/", "", "19970101T180000Z/", "19970101T180000Z/19970102T070000Z/PT1H",
+            "19970101T180000Z/PT1H\n", "19970101T180000Z/P1W2D", "19970101T180000Z/PT1H5S",
+            "P" + "0" * 4290 + "1D", "P" + "0" * 4297 + "1D", "P" + "0" * 4298 + "1D", "P" + "0" * 4300 + "1D",
+            "19970101T180000Z/P" + "0" * 4281 + "1D", "19970101T180000Z/P" + "0" * 4282 + "1D", "19970101T180000Z/P" + "0" * 4300 + "1D"]
+    texts = list(base)
+    for _ in range(n):
+        for gen in (rand_date_text, rand_time_text, rand_datetime_text, rand_dur_text2, rand_period_text, rand_period_text):
+            t = gen(rng)
+            texts.append(t)
+            if rng.randrange(2):
+                texts.append(mutate_text(rng, t))
+    seen = set()
+    for t in texts:
+        if t in seen:
+            continue
+        seen.add(t)
+        rd = g_ddd_readings(t)
+        if len(rd) > 1:
+            R.fail("the harness's five grammars are not disjoint on a text (C03_ddd_grammars_disjoint says they are)", t, rd)
+            continue
+        g = rd[0] if rd else None
+        kind = g[0] if g else "none"
+        res.dist("grammar-ddd:" + kind)
+        res.count(("grammar-ddd", t), nontrivial=g is not None)
+        none = ["none"]
+        short = len(t) <= 4300
+        via = obs(lambda: vDDDTypes.from_ical(t), c_ddd)
+        j = R.corr("vDDDTypes.from_ical", "ddd_from_ical", t, via)
+        R.spec("ddd_value", t, big_ddd(g))
+        cls = ddd_class(g) if g else None
+        ig = R.corr("guard ddd_guard (extracted) vs harness reading", "ddd_guard", t,
+                    none if g is None else int(cls is None and short))
+        if g is not None and short:
+            R.corr("C03_ddd_grammar_value_full: vDDDTypes.from_ical = ddd_expected on grammar-valid texts", "ddd_expected", t, via)
+        per = jp = None
+        if "/" in t:
+            per = obs(lambda: vPeriod.from_ical(t), c_ddd)
+            jp = R.corr("vPeriod.from_ical", "dec_period", t, per)
+            gp = g if kind == "period" else None
+            R.spec("period_value", t, big_ddd(gp))
+            R.corr("guard ddd_guard (extracted) vs harness reading", "period_guard", t,
+                   none if gp is None else int(cls is None and short))
+            if gp is not None and short:
+                R.corr("C03_period_grammar_value_full: vPeriod.from_ical = ddd_expected on grammar-valid texts", "period_expected", t, per)
+        if g is not None:
+            def decide(outs, t=t, g=g, via=via, per=per, cls=cls, j=j, jp=jp, ig=ig, short=short):
+                inside = outs[ig] if (outs[ig] is not None and outs[ig] != ["unsupported"]) else int(cls is None and short)
+                for what, got, ix in (("vDDDTypes.from_ical", via, j),) + ((("vPeriod.from_ical", per, jp),) if per is not None else ()):
+                    if got == g:
+                        if not inside and short:
+                            R.fail("outside the guard, yet the RFC value is returned (C03_ddd_grammar_value_full says never)", t, got, g)
+                        continue
+                    if inside:
+                        R.fail("grammar: a text valid for exactly one of DATE/DATE-TIME/TIME/DURATION/PERIOD, inside the guard of "
+                               "C03_ddd_grammar_value, is not decoded to its RFC value by " + what, t, got, g)
+                    elif cls is not None:
+                        R.suspect(cls, "grammar-valid %s text outside the guard is not decoded to its value by %s" % (g[0], what),
+                                  t, got, ix)
+                    elif not short and got == ["err", "ValueError"]:
+                        pass        # CPython's int() digit limit: the stated length bound, not a finding
+                    else:
+                        R.fail("grammar-valid text fails outside every recorded class (" + what + ")", t, got, g)
+            R.later(decide)
+        else:
+            u = aupper(t)
+            gu = g_ddd(u) if u != t else None
+            R.corr("RFC recogniser ddd_grammar_ci (Coq) vs harness regex", "ddd_grammar_ci", t, int(g_ddd(u) is not None))
+            if gu is not None and ddd_class(gu) is None and len(t) <= 4300 and via != gu:
+                R.suspect("C03-F5", "text of the five kinds with a lower-case designator (RFC 5234 literals are case-insensitive) "
+                                    "is not decoded", t, via, j)
+
+
 def gen_ints(ctx):
     rng = common.rng_for(ctx.seed, "c03-int")
     vals = set(range(-1100, 1101))
@@ -867,15 +1134,46 @@ def sec_binary(R):
             mal.append("".join(tup))
     for _ in range(10000 if ctx.big else 1500):
         mal.append("".join(rng.choice("ABab01+/=\n x") for _ in range(rng.randrange(0, 14))))
+    # texts from the grammar: any alphabet characters, so the last quantum is usually NOT canonical (its unused bits are
+    # not zero); the same without padding, with the padding doubled, with something after it
+    for _ in range(12000 if ctx.big else 1500):
+        body = "".join(rng.choice(B64_ALPHABET) for _ in range(4 * rng.choice((0, 0, 1, 1, 2, 3, rng.randrange(12)))))
+        tail = rng.choice(("", "", "xx==", "xxx=", "xx==", "xxx="))
+        tail = "".join(rng.choice(B64_ALPHABET) if c == "x" else c for c in tail)
+        t = body + tail
+        mal.append(t)
+        k = rng.randrange(6)
+        if k == 0:
+            mal.append(t.rstrip("="))
+        elif k == 1:
+            mal.append(t + rng.choice(("=", "==", "QQ==", "\n", "A")))
+        elif k == 2 and t:
+            mal.append(t[:-1])
     for t in mal:
         res.dist("binary:decoder-texts")
         res.count(("binary-dec", t), nontrivial=True)
         back = obs(lambda: vBinary.from_ical(t), c_bytes)
         R.corr("vBinary.from_ical", "dec_binary", t, back)
-        if BIN_RE.fullmatch(t):
+        gb = g_binary(t)
+        R.spec("binary_value", t, None if gb is None else c_bytes(gb[0]))
+        if gb is not None:
+            # C03_binary_grammar_value (no guard): the RFC 4648 octets, canonical or not; re-encoding gives the text back
+            # exactly when it is canonical
+            res.dist("binary:grammar-text " + ("canonical" if gb[1] else "non-canonical"))
+            R.B.add("RFC recogniser binary_canonical (Coq) vs harness bit arithmetic", "binary_canonical", t, int(gb[1]))
             want = obs(lambda: base64.b64decode(t, validate=True), c_bytes)
-            if back != want:
-                R.fail("binary grammar: a grammar-valid BINARY text does not decode to its octets", t, back, want)
+            if back != c_bytes(gb[0]) or back != want:
+                R.fail("binary grammar: a grammar-valid BINARY text does not decode to the octets RFC 4648 assigns", t, back, c_bytes(gb[0]))
+            else:
+                again = binascii.b2a_base64(gb[0])[:-1].decode("ascii")
+                if (again == t) != gb[1]:
+                    R.fail("binary: re-encoding the decoded octets gives the text back iff it is canonical", t, again)
+                elif g_binary(again) != (gb[0], True):
+                    R.fail("binary: the re-encoded text is not the canonical text of the same octets", t, again)
+        elif t and all(c in B64_ALPHABET for c in t) and len(t) % 4 != 0:
+            res.dist("binary:missing padding")
+            if back != ["err", "ValueError"]:       # C03_binary_unpadded
+                R.fail("binary: alphabet characters without padding (length not a multiple of 4) are not refused", t, back)
 
 
 def sec_weekdays(R):
@@ -898,6 +1196,9 @@ def sec_weekdays(R):
                     R.corr("vWeekday.from_ical", "dec_weekday", v, back0)
                     n = int(rel) if rel else None
                     in_grammar = (rel == "" and sign == "") or (rel != "" and 1 <= n <= 53)
+                    gw = g_weekday(v)
+                    assert (gw is not None) == in_grammar, v
+                    R.spec("weekday_value", v, gw)
                     if in_grammar:
                         want = [v.upper(), ["none"] if n is None else (-n if sign == "-" else n), wd]
                         if back0 != want:
@@ -914,6 +1215,11 @@ def sec_weekdays(R):
     rng = common.rng_for(ctx.seed, "c03-weekday")
     mal = ["MO\n", "MO\n\n", "+\n", "123", "1234", "12345", "MON", "M", "", "++MO", "1+MO", "_O", "MO ", " MO", "1 MO", "M0", "１MO",
            "ＭＯ", "ſu", "-MO", "100MO", "1_MO", "SU\nMO"]
+    for _ in range(3000 if ctx.big else 600):
+        wd = rng.choice(WEEKDAYS + ["MO", "SU", "XX", "M", "MON", "SO"])
+        wd = "".join(c.lower() if rng.randrange(3) == 0 else c for c in wd)
+        mal.append(rng.choice(("", "", "+", "-", "+-", " ")) + rng.choice(("", str(rng.randrange(0, 120)), "%02d" % rng.randrange(0, 60),
+                                                                        "%03d" % rng.randrange(0, 60))) + wd + rng.choice(("", "", "", "\n", " ")))
     al = ["M", "O", "S", "U", "m", "1", "0", "+", "-", "_", "\n", " "]
     for n in range(0, 5 if ctx.big else 4):
         for tup in itertools.product(al, repeat=n):
@@ -924,7 +1230,12 @@ def sec_weekdays(R):
         res.dist("weekday:malformed-or-near")
         res.evaluations += 1
         R.corr("vWeekday(...)", "weekday_new", v, obs(lambda: vWeekday(v), c_wd))
-        R.corr("vWeekday.from_ical", "dec_weekday", v, obs(lambda: vWeekday.from_ical(v), c_wd))
+        back0 = obs(lambda: vWeekday.from_ical(v), c_wd)
+        R.corr("vWeekday.from_ical", "dec_weekday", v, back0)
+        gw = g_weekday(v)
+        R.spec("weekday_value", v, gw)
+        if gw is not None and back0 != [aupper(v)] + gw:      # C03_weekday_grammar_value has no guard
+            R.fail("weekday grammar: a grammar-valid weekdaynum text does not decode to its value", v, back0, [aupper(v)] + gw)
 
 
 def sec_freqs(R):
@@ -1093,7 +1404,7 @@ def sec_floats(R):
             pass
 
 
-SECTIONS = [sec_int_builtin, sec_dates, sec_times, sec_datetimes, sec_durations, sec_offsets, sec_periods, sec_ints,
+SECTIONS = [sec_int_builtin, sec_dates, sec_times, sec_datetimes, sec_durations, sec_offsets, sec_periods, sec_grammar_ddd, sec_ints,
             sec_bools, sec_binary, sec_weekdays, sec_freqs, sec_months, sec_uris, sec_floats]
 
 
@@ -1104,7 +1415,10 @@ def run(ctx, res):
                 "boundary lattice + random up to 46 bits + the timedelta limits; integers at powers of 2 and 10 +-2, the "
                 "4300-digit limit, random up to 200 bits; random octet strings and Unicode payloads for base64), each through "
                 "to_ical, from_ical and vDDDTypes.from_ical; grammar-generated texts per type with the value the RFC assigns; "
-                "a separate malformed/near-miss stream per type (correspondence only). non-trivial = every value/text case "
+                "a separate malformed/near-miss stream per type (correspondence only); texts generated from the five vDDDTypes grammars "
+                "(DATE, DATE-TIME, TIME, DURATION, PERIOD; leap seconds, Z, over-range and 4300-character durations) with their mutations "
+                "and case variants, each through vDDDTypes.from_ical and (with a '/') vPeriod.from_ical, classified by the extracted guard "
+                "ddd_guard; base64 texts over the whole alphabet (canonical and not), unpadded and over-padded. non-trivial = every value/text case "
                 "except the empty/zero ones and the malformed stream; distinct by (type, value or text)")
     import time as _time
     R = Run(ctx, res)
@@ -1152,6 +1466,10 @@ def replay(ctx, data):
             o = obs(lambda: cls.from_ical(inp), canon)
             m = M.call(mf, inp) if (M and mf) else None
             print(f"{cls.__name__}.from_ical: impl={o!r}"[:200], "" if mf is None else f" model {mf}={m!r}"[:200])
+        if M:       # the RFC readings, the extracted guard and the prediction of the grammar => value theorems
+            for mf in ("ddd_value", "ddd_guard", "ddd_expected", "period_value", "weekday_value", "binary_value", "binary_canonical"):
+                print(f"model {mf}: {M.call(mf, inp)!r}"[:200])
+        print("harness readings:", {"ddd": g_ddd_readings(inp), "weekdaynum": g_weekday(inp), "binary": g_binary(inp)})
     elif isinstance(inp, int):
         print("vDuration:", obs(lambda: c_text(prop.vDuration(timedelta(seconds=inp)).to_ical())), "model:", M.call("enc_dur", inp) if M else None)
         print("vUTCOffset:", obs(lambda: c_text(prop.vUTCOffset(timedelta(seconds=inp)).to_ical())), "model:", M.call("enc_offset", inp) if M else None)
